@@ -1,8 +1,9 @@
 /-
 The invariant of the oracle × watermark system (`NoKV.Snap.sys`) under the good configuration, and
 its preservation by every action.  The one fact imported from C32 is that the state of `txnMark`
-is a reachable state of the watermark system *with the usage contract* (`tmR`): the contract is
-not assumed, it is established here from the oracle mutex (`busy`, `next`).
+satisfies C32's invariants (`tmR : WM.Ok`: true of a fresh or re-seeded watermark and kept by every
+step of the watermark system *with the usage contract*): the contract is not assumed, it is
+established here from the oracle mutex (`busy`, `next`).
 -/
 import NoKVModel.Snap.Model
 import NoKVModel.Snap.WMFacts
@@ -120,7 +121,7 @@ theorem TI.frame {s s' : St} {tid : Nat} {t : Txn} (h : TI s tid t)
   ⟨fun hb => Nat.le_trans (h.began hb) hdu, h.pc.frame hl hk hdec hcnt hst⟩
 
 structure Inv (c : SnapCfg) (s : St) : Prop where
-  tmR : Reachable (WM.sys c.wm true) s.tm
+  tmR : WM.Ok s.tm
   ti : ∀ tid t, s.thr tid = some t → TI s tid t
   busy : s.tm.sectionBusy = true →
     ∃ tid t w wt, s.thr tid = some t ∧ t.pc = .call .txn w .cRecord ∧ s.tm.thr w = some wt ∧ wt.stage ≤ 3
@@ -128,7 +129,6 @@ structure Inv (c : SnapCfg) (s : St) : Prop where
   tsLt : ∀ tid t, s.thr tid = some t → t.commitTs < s.nextTs
   uniq : ∀ a b ta tb, s.thr a = some ta → s.thr b = some tb → ta.commitTs ≠ 0 →
     ta.commitTs = tb.commitTs → a = b
-  owned : ∀ ts, 1 ≤ ts → ts < s.nextTs → ∃ tid t, s.thr tid = some t ∧ t.commitTs = ts
   fresh : ∀ j, s.nextTs ≤ j → s.tm.nDoneDec j = 0
 
 def BusyOk (s : St) : Prop :=
@@ -139,7 +139,7 @@ def BusyOk (s : St) : Prop :=
 theorem Inv.update {c : SnapCfg} {s s' : St} (h : Inv c s) (tid : Nat) (t t' : Txn)
     (ht : s.thr tid = some t)
     (hthr : ∀ x, s'.thr x = if x = tid then some t' else s.thr x)
-    (htm : Reachable (WM.sys c.wm true) s'.tm)
+    (htm : WM.Ok s'.tm)
     (hdu : s.tm.doneUntil ≤ s'.tm.doneUntil)
     (hl : ∀ x, x ≠ tid → s.locked = some x → s'.locked = some x)
     (hk : ∀ w k, HasKind s w k → HasKind s' w k)
@@ -161,7 +161,7 @@ theorem Inv.update {c : SnapCfg} {s s' : St} (h : Inv c s) (tid : Nat) (t t' : T
   have htlt : t'.commitTs < s'.nextTs := by
     have := h.tsLt tid t ht
     rcases hts with h1 | h1 <;> omega
-  refine ⟨htm, ?_, hbusy, hnext, ?_, ?_, ?_, hfresh⟩
+  refine ⟨htm, ?_, hbusy, hnext, ?_, ?_, hfresh⟩
   · intro x tx hx
     by_cases hxt : x = tid
     · subst hxt; rw [hme tx hx]; exact hself
@@ -189,20 +189,6 @@ theorem Inv.update {c : SnapCfg} {s s' : St} (h : Inv c s) (tid : Nat) (t t' : T
       · exact h.uniq a b ta t ha0 ht hne (h1.1 ▸ heq)
       · omega
     · exact h.uniq a b ta tb (hoth a ta hat ha) (hoth b tb hbt hb) hne heq
-  · intro ts h1 hlt
-    have old : ts < s.nextTs → ∃ x tx, s'.thr x = some tx ∧ tx.commitTs = ts := by
-      intro hlt0
-      obtain ⟨x, tx, hx, hxe⟩ := h.owned ts h1 hlt0
-      by_cases hxt : x = tid
-      · subst hxt; rw [ht] at hx; cases hx
-        refine ⟨x, t', by rw [hthr x, if_pos rfl], ?_⟩
-        rcases hts with h2 | h2 <;> omega
-      · exact ⟨x, tx, by rw [hthr x, if_neg hxt]; exact hx, hxe⟩
-    rcases hts with h2 | h2
-    · exact old (by omega)
-    · by_cases hlt0 : ts < s.nextTs
-      · exact old hlt0
-      · exact ⟨tid, t', by rw [hthr tid, if_pos rfl], by omega⟩
 
 /-- the busy witness survives a step that leaves `txnMark` and every thread inside `txnMark.Begin` alone -/
 theorem BusyOk.keep {s s' : St} (h : BusyOk s) (htm : s'.tm = s.tm)
